@@ -464,7 +464,7 @@ impl U256Muldiv {
     }
 //@ end
 
-//@ assume U256Muldiv::div: verified as segments of the real bodies: the early cases (div_cases_012), the single-word-divisor long division (div_case_3), and step D3 of Knuth's algorithm D in div_loop (div_loop_estimate: estimate + correction loop, with the number-theoretic lemmas lemma_d3_first / lemma_d3_lower / lemma_d3_upper that place the corrected estimate in {q, q+1}); still ASSUMED: normalisation (shift_left, carry space), the multiply-subtract and add-back steps D4-D6 of div_loop, the outer loop, the remainder's denormalisation, and the composition of the segments
+//@ assume U256Muldiv::div: verified as segments of the real bodies: the early cases (div_cases_012), the single-word-divisor long division (div_case_3), and ALL of div_loop = one step of Knuth's algorithm D: D3 estimate + correction loop (div_loop_estimate), D4 multiply-subtract in wrapping arithmetic (div_loop_mulsub), D5/D6 add-back (div_loop_addback); the number-theoretic lemmas (lemma_d3_first/lower/upper, lemma_knuth_step) and the composition artifact div_loop_composed prove that the three segment contracts compose to knuth_post (digit = floor(window / V), window := window mod V); segcheck proves that the segments tile div_loop's body. Still ASSUMED: that div_loop itself meets the composed contract (sequential composition of its tiled segments), div's normalisation (shift_left, carry space), its outer loop and the remainder's denormalisation; and that callers' operands avoid the add-back at the carry position, where the real code panics (observation in DESIGN.md)
 //@ fn math/u256_math.rs div in=/^impl U256Muldiv \{/ -> r stub
     requires divisor.view() != 0,
     ensures r.0.view() == self.view() / divisor.view(),
@@ -648,7 +648,7 @@ fn div_loop_estimate(index: usize, num_divisor_words: usize, dividend: U256Muldi
         &&& *final(dividend_carry_space) == *old(dividend_carry_space)
         &&& qhat * v1 + rhat == d0
         &&& d3_passes(qhat, rhat, v2, u2)
-        &&& (qhat == d0 / v1 || !d3_passes(qhat + 1, rhat - v1, v2, u2)) }),
+        &&& (qhat == d0 / v1 || (0 <= rhat - v1 < Q() && !d3_passes(qhat + 1, rhat - v1, v2, u2))) }),
 //@ loop 0
         invariant_except_break
             rhat < 0x1_0000_0000_0000_0000,
@@ -657,11 +657,11 @@ fn div_loop_estimate(index: usize, num_divisor_words: usize, dividend: U256Muldi
             d1 as int == divisor.items[num_divisor_words - 1] as int, d1 as int >= 0x8000_0000_0000_0000, d1_2 as int == divisor.items[num_divisor_words - 2] as int,
             d0_2 == dividend.items[index + num_divisor_words - 2],
             qhat as int * d1 as int + rhat as int == d0 as int, qhat <= 0x1_0000_0000_0000_0001, d0 as int <= d1 as int * Q() + (Q() - 1),
-            qhat as int == d0 as int / d1 as int || !d3_passes(qhat as int + 1, rhat as int - d1 as int, d1_2 as int, d0_2 as int),
+            qhat as int == d0 as int / d1 as int || (0 <= (rhat as int - d1 as int) && (rhat as int - d1 as int) < Q() && !d3_passes(qhat as int + 1, rhat as int - d1 as int, d1_2 as int, d0_2 as int)),
         ensures
             qhat as int * d1 as int + rhat as int == d0 as int,
             d3_passes(qhat as int, rhat as int, d1_2 as int, d0_2 as int),
-            qhat as int == d0 as int / d1 as int || !d3_passes(qhat as int + 1, rhat as int - d1 as int, d1_2 as int, d0_2 as int),
+            qhat as int == d0 as int / d1 as int || (0 <= (rhat as int - d1 as int) && (rhat as int - d1 as int) < Q() && !d3_passes(qhat as int + 1, rhat as int - d1 as int, d1_2 as int, d0_2 as int)),
         decreases qhat,
 //@ inject before /let mut qhat = d0 \/ d1;/
     proof { let q = Q(); let hi = div_hi as int; let u1 = dividend.items[index + num_divisor_words - 1] as int;
@@ -707,6 +707,47 @@ fn div_loop_estimate(index: usize, num_divisor_words: usize, dividend: U256Muldi
         }
 //@ end
 pub open spec fn d1_2_spec(divisor: U256Muldiv, n: int) -> int { divisor.items[n - 2] as int }
+
+/// One complete step of Knuth's algorithm D from the contracts of its three verified segments (D3 estimate, D4 multiply-subtract, D5/D6 add-back):
+/// the digit is floor(W0 / V) and the window becomes W0 mod V.  W0 is the (n+1)-word window, V the normalised divisor, both split into their leading words
+/// and a tail of m = B^(n-2) further units: W0 = (d0 * B + u2) * M + ut, V = (v1 * B + v2) * M + vt.
+pub proof fn lemma_knuth_step(qhat: int, rhat: int, d0: int, v1: int, v2: int, u2: int, m: int, ut: int, vt: int, w1: int, borrow: bool, q: int, w2: int)
+    requires m >= 1, 0 <= ut < m, 0 <= vt < m, 0 <= v2 < Q(), 0 <= u2 < Q(), v1 >= 1, d0 >= 0,
+        // the window is below V * B (its n leading words are below V)
+        (d0 * Q() + u2) * m + ut < ((v1 * Q() + v2) * m + vt) * Q(),
+        // D3
+        0 <= qhat, qhat * v1 + rhat == d0, 0 <= rhat, d3_passes(qhat, rhat, v2, u2), (qhat == d0 / v1 || (rhat - v1 < Q() && rhat - v1 >= 0 && !d3_passes(qhat + 1, rhat - v1, v2, u2))),
+        // D4: (window - qhat * V) modulo B^(n+1) = B * B * B * M, with the borrow flag
+        w1 == (d0 * Q() + u2) * m + ut - qhat * ((v1 * Q() + v2) * m + vt) + (if borrow { Q() * Q() * Q() * m } else { 0 }), 0 <= w1 < Q() * Q() * Q() * m,
+        // D5/D6
+        !borrow ==> q == qhat && w2 == w1,
+        borrow ==> q == qhat - 1 && 0 <= w2 < Q() * Q() * Q() * m && (w2 == w1 + ((v1 * Q() + v2) * m + vt) || w2 == w1 + ((v1 * Q() + v2) * m + vt) - Q() * Q() * Q() * m),
+    ensures q * ((v1 * Q() + v2) * m + vt) + w2 == (d0 * Q() + u2) * m + ut, 0 <= w2 < (v1 * Q() + v2) * m + vt, q >= 0,
+{
+    let b = Q(); let v = (v1 * b + v2) * m + vt; let w0 = (d0 * b + u2) * m + ut; let top = b * b * b * m;
+    assert(v >= 1) by(nonlinear_arith) requires v1 >= 1, b >= 1, v2 >= 0, m >= 1, vt >= 0, v == (v1 * b + v2) * m + vt;
+    assert(w0 >= 0) by(nonlinear_arith) requires d0 >= 0, b >= 1, u2 >= 0, m >= 1, ut >= 0, w0 == (d0 * b + u2) * m + ut;
+    assert(qhat * v >= 0) by(nonlinear_arith) requires qhat >= 0, v >= 1;
+    lemma_d3_upper(qhat, rhat, d0, v1, v2, u2, m, ut, vt);       // (qhat - 1) * V <= W0
+    // the true digit is not above qhat: (qhat + 1) * V > W0
+    assert((qhat + 1) * v > w0) by {
+        if qhat == d0 / v1 {
+            // Theorem A: any digit q' with q' * V <= W0 is at most d0 / v1
+            if (qhat + 1) * v <= w0 { lemma_d3_first(d0, v1, v2, u2, m, ut, vt, qhat + 1); }
+        } else {
+            assert((qhat + 1) * v1 + (rhat - v1) == d0) by(nonlinear_arith) requires qhat * v1 + rhat == d0;
+            lemma_d3_lower(qhat + 1, rhat - v1, d0, v1, v2, u2, m, ut, vt);
+        }
+    }
+    if !borrow {
+        // W1 = W0 - qhat * V >= 0 and (qhat + 1) * V > W0
+        assert((qhat + 1) * v == qhat * v + v) by(nonlinear_arith);
+    } else {
+        // W0 - qhat * V + top < top  ==>  W0 < qhat * V ; with (qhat - 1) * V <= W0 the add-back must have carried out
+        assert((qhat - 1) * v == qhat * v - v) by(nonlinear_arith);
+        assert(qhat >= 1) by { if qhat == 0 { assert(0 * v == 0) by(nonlinear_arith); } }
+    }
+}
 
 // ------------------------------------------------------------------ Knuth algorithm D, step D4 (multiply and subtract) of div_loop
 /// the number formed by `len` words of x starting at word `start` (that word least significant)
@@ -877,6 +918,101 @@ fn div_loop_addback(index: usize, num_divisor_words: usize, dividend_in: U256Mul
         assert((h0 + k as int) * e == h0 * e + k as int * e) by(nonlinear_arith);
     } }
 //@ end
+// ------------------------------------------------------------------ div_loop as a whole: sequential composition of the three verified segments
+/// the postcondition of step D3 as a predicate over the leading words
+pub open spec fn d3_post(qhat: int, rhat: int, d0: int, v1: int, v2: int, u2: int) -> bool {
+    qhat * v1 + rhat == d0 && d3_passes(qhat, rhat, v2, u2) && (qhat == d0 / v1 || (0 <= rhat - v1 && rhat - v1 < Q() && !d3_passes(qhat + 1, rhat - v1, v2, u2)))
+}
+/// precondition of one Knuth step at position `index`: normalised n-word divisor (2 <= n <= 4), the window's n leading words are below the divisor;
+/// and - because the real code panics there (see div_loop_addback) - no add-back when the window's head is the carry space
+pub open spec fn knuth_pre(index: int, n: int, dividend: U256Muldiv, carry: u64, divisor: U256Muldiv) -> bool {
+    let v = wsum(divisor, 0, n); let w0 = window(dividend, carry, index, n);
+    let d0 = win_hi(index, n, dividend, carry) * Q() + dividend.items[index + n - 1] as int;
+    &&& 2 <= n <= 4 && 0 <= index && index + n <= 4
+    &&& divisor.items[n - 1] as int >= 0x8000_0000_0000_0000
+    &&& w0 < v * Q()
+    &&& (index + n == 4 ==> forall|qh: int, rh: int| #[trigger] d3_post(qh, rh, d0, divisor.items[n - 1] as int, divisor.items[n - 2] as int, dividend.items[index + n - 2] as int) && qh >= 0 && rh >= 0 ==> qh * v <= w0)
+}
+/// one Knuth step: quotient word `index` becomes floor(window / V), the window becomes window mod V (its head word therefore 0), nothing else changes
+pub open spec fn knuth_post(index: int, n: int, dividend: U256Muldiv, carry0: u64, divisor: U256Muldiv, quotient: U256Muldiv, r: (U256Muldiv, U256Muldiv), carry1: u64) -> bool {
+    let v = wsum(divisor, 0, n); let w0 = window(dividend, carry0, index, n);
+    &&& r.0.items@ == quotient.items@.update(index, (w0 / v) as u64) && 0 <= w0 / v < Q()
+    &&& window(r.1, carry1, index, n) == w0 % v
+    &&& (forall|m: int| 0 <= m < 4 && (m < index || m > index + n) ==> r.1.items[m] == dividend.items[m])
+    &&& (index + n < 4 ==> carry1 == carry0)
+}
+/// composition artifact (not repository code): calls the three segments in the order in which they tile div_loop's body (checked by segcheck) and the final
+/// `quotient.update_word(index, qhat.lo())`; its verification is the proof that the segment contracts compose to knuth_post
+pub fn div_loop_composed(index: usize, num_divisor_words: usize, dividend: U256Muldiv, dividend_carry_space: &mut u64, divisor: U256Muldiv, quotient: U256Muldiv) -> (r: (U256Muldiv, U256Muldiv))
+    requires knuth_pre(index as int, num_divisor_words as int, dividend, *old(dividend_carry_space), divisor),
+    ensures knuth_post(index as int, num_divisor_words as int, dividend, *old(dividend_carry_space), divisor, quotient, r, *final(dividend_carry_space)),
+{
+    let ghost n = num_divisor_words as int; let ghost ix = index as int; let ghost c0 = *dividend_carry_space;
+    let ghost v = wsum(divisor, 0, n); let ghost w0 = window(dividend, c0, ix, n);
+    let ghost v1 = divisor.items[n - 1] as int; let ghost v2 = divisor.items[n - 2] as int; let ghost u2 = dividend.items[ix + n - 2] as int;
+    let ghost d0 = win_hi(ix, n, dividend, c0) * Q() + dividend.items[ix + n - 1] as int;
+    let ghost m = qpow((n - 2) as nat);
+    let ghost ut = wsum(dividend, ix, n - 2); let ghost vt = wsum(divisor, 0, n - 2);
+    proof {
+        lemma_q_powers(); lemma_qpow_pos((n - 2) as nat); lemma_wsum_bound(dividend, ix, n - 2); lemma_wsum_bound(divisor, 0, n - 2);
+        lemma_qpow_unfold((n - 1) as nat); lemma_qpow_unfold(n as nat); lemma_qpow_unfold((n + 1) as nat);
+        // split window and divisor into leading words and tail
+        assert(wsum(dividend, ix, n) == wsum(dividend, ix, n - 1) + dividend.items[ix + n - 1] as int * qpow((n - 1) as nat));
+        assert(wsum(dividend, ix, n - 1) == ut + u2 * m);
+        assert(wsum(divisor, 0, n) == wsum(divisor, 0, n - 1) + v1 * qpow((n - 1) as nat));
+        assert(wsum(divisor, 0, n - 1) == vt + v2 * m);
+        assert(v == (v1 * Q() + v2) * m + vt) by(nonlinear_arith) requires v == vt + v2 * m + v1 * (Q() * m);
+        assert(w0 == (d0 * Q() + u2) * m + ut) by(nonlinear_arith)
+            requires w0 == ut + u2 * m + dividend.items[ix + n - 1] as int * (Q() * m) + win_hi(ix, n, dividend, c0) * (Q() * (Q() * m)), d0 == win_hi(ix, n, dividend, c0) * Q() + dividend.items[ix + n - 1] as int;
+        // the head word is at most v1 (else the window would not be below V * B)
+        let hi = win_hi(ix, n, dividend, c0);
+        assert(hi <= v1) by {
+            if hi >= v1 + 1 {
+                assert(w0 >= (v1 + 1) * (Q() * (Q() * m))) by(nonlinear_arith) requires w0 == (d0 * Q() + u2) * m + ut, d0 >= hi * Q(), hi >= v1 + 1, u2 >= 0, ut >= 0, m >= 1, Q() >= 1;
+                assert(v * Q() < (v1 + 1) * (Q() * (Q() * m))) by(nonlinear_arith) requires v == (v1 * Q() + v2) * m + vt, v2 < Q(), vt < m, m >= 1, Q() >= 1;
+            }
+        }
+    }
+    let use_carry = index + num_divisor_words == 4;
+    let (qhat, rhat) = div_loop_estimate(index, num_divisor_words, dividend, dividend_carry_space, divisor);
+    proof { assert(d3_post(qhat as int, rhat as int, d0, v1, v2, u2)); }
+    let (d1, k, d_head) = div_loop_mulsub(index, num_divisor_words, dividend, dividend_carry_space, divisor, qhat, use_carry);
+    let ghost c1 = *dividend_carry_space; let ghost w1 = window(d1, c1, ix, n); let ghost borrow = k > d_head;
+    proof {
+        lemma_wsum_bound(d1, ix, n); lemma_qpow_pos(n as nat);
+        assert(0 <= w1 < qpow((n + 1) as nat)) by(nonlinear_arith)
+            requires w1 == wsum(d1, ix, n) + win_hi(ix, n, d1, c1) * qpow(n as nat), 0 <= wsum(d1, ix, n) < qpow(n as nat), 0 <= win_hi(ix, n, d1, c1) <= Q() - 1, qpow((n + 1) as nat) == Q() * qpow(n as nat);
+        lemma_qpow_unfold((n - 1) as nat); lemma_qpow_unfold(n as nat); lemma_qpow_unfold((n + 1) as nat);
+        assert(qpow((n - 1) as nat) == Q() * m);
+        assert(qpow(n as nat) == Q() * (Q() * m));
+        assert(qpow((n + 1) as nat) == Q() * Q() * Q() * m) by(nonlinear_arith) requires qpow((n + 1) as nat) == Q() * qpow(n as nat), qpow(n as nat) == Q() * (Q() * m);
+        lemma_wsum_bound(dividend, ix, n);
+        assert(w0 >= 0) by(nonlinear_arith) requires w0 == wsum(dividend, ix, n) + win_hi(ix, n, dividend, c0) * qpow(n as nat), wsum(dividend, ix, n) >= 0, win_hi(ix, n, dividend, c0) >= 0, qpow(n as nat) >= 1;
+        if borrow { assert(qhat as int * v > w0); assert(qhat >= 1) by { if qhat == 0 { assert(0 * v == 0) by(nonlinear_arith); } } }
+    }
+    let (d2, q) = div_loop_addback(index, num_divisor_words, d1, dividend_carry_space, divisor, qhat, k, d_head, use_carry);
+    let ghost c2 = *dividend_carry_space; let ghost w2 = window(d2, c2, ix, n);
+    proof {
+        lemma_wsum_bound(d2, ix, n);
+        assert(0 <= w2 < qpow((n + 1) as nat)) by(nonlinear_arith)
+            requires w2 == wsum(d2, ix, n) + win_hi(ix, n, d2, c2) * qpow(n as nat), 0 <= wsum(d2, ix, n) < qpow(n as nat), 0 <= win_hi(ix, n, d2, c2) <= Q() - 1, qpow((n + 1) as nat) == Q() * qpow(n as nat), qpow(n as nat) >= 1;
+        lemma_knuth_step(qhat as int, rhat as int, d0, v1, v2, u2, m, ut, vt, w1, borrow, q as int, w2);
+        vstd::arithmetic::div_mod::lemma_fundamental_div_mod_converse(w0, v, q as int, w2);
+        assert(q as int * v <= w0);
+        assert((q as int) < Q()) by(nonlinear_arith) requires q as int * v <= w0, w0 < v * Q(), v >= 1, q as int >= 0;
+        vstd::arithmetic::div_mod::lemma_small_mod(q as nat, Q() as nat);
+    }
+    let mut quotient = quotient;
+    quotient.update_word(index, q.lo());
+    (quotient, d2)
+}
+/// the real div_loop: ASSUMED to satisfy the contract that its three verified segments compose to (div_loop_composed proves the composition; segcheck the tiling)
+//@ fn math/u256_math.rs div_loop -> r stub
+    requires knuth_pre(index as int, num_divisor_words as int, dividend, *old(dividend_carry_space), divisor),
+    ensures knuth_post(index as int, num_divisor_words as int, dividend, *old(dividend_carry_space), divisor, quotient, r, *final(dividend_carry_space)),
+//@ end
+//@ segcheck math/u256_math.rs div_loop
+
 /// Knuth 4.3.1: what the D3 postcondition means for the true quotient digit. U is the (n+1)-word window, V the normalised n-word divisor (n >= 2), written with
 /// their two resp. three leading words and a tail below them (m = n - 2 further words): U = (d0 * B + u2) * M + ut, V = (v1 * B + v2) * M + vt, 0 <= ut, vt < M.
 /// If (qhat, rhat) with qhat * v1 + rhat == d0 passes the test then (qhat - 1) * V <= U, i.e. the true digit is at least qhat - 1
